@@ -24,6 +24,7 @@ LEVEL_TEXT = ('static: writer grammar == SCgf v2 reference == reader grammar (sh
               'topological for every graph nor value equality through SynthDesc.')
 LEVEL_NOTE = 'reference grammar in scverif/refs (SCgf v2 spec); struct semantics of CPython trusted'
 LEVEL_TEXT_ADD = ' Also: one input = one input spec (sequence inputs refused by the generic validity check) and the or-default rule over the description reader (C02.desc).'
+LEVEL_TEXT_ADD += " Rounds e-f: the unit's own output list is not handed out; the writer refuses what the reader rejects (duplicate names, > 255 names); foreign units refused; name table / variant block sources (shared with C04)."
 LEVEL_TEXT = (globals().get('LEVEL_TEXT') or EXPLANATION) + LEVEL_TEXT_ADD
 TECHNIQUE = 'static analysis: format-grammar extraction over the AST + path enumeration (count/early-exit, validation discipline)'
 
